@@ -11,7 +11,7 @@ import (
 )
 
 func init() {
-	register("C02", "Loading and validation never crash and terminate: (R1) nil safety — every dereference, reachable from Validate/Walk/LoadSchema and the rules, of a value that may be nil for a parseable document (a 'requires validation' link, a map lookup, a ForName result, a phi with nil) is dominated by a nil test of the same value or access path, directly or through the callee's requires-non-nil summary; (R2) every reachable panic sits in the default of an exhaustive switch; (R3) every cycle of the call graph of the validator, the rules and the loader either descends the finite document/type tree in every call (arguments reached from parameters through child fields only) or passes a visited-set gate (a membership test whose 'present' side skips the recursion and whose 'absent' side inserts before recursing); (R4) the gate's set is grow-only while the traversal runs (no delete, plain or deferred), which is what keeps fragment-following work linear in the number of fragments instead of exponential; (R5) every loop in that scope is a range loop, a counting loop towards a bound it does not change, a pointer cursor stepping to its own child, or a work list that loses one element per iteration and is only fed strict parts of that element or values that pass a visited-set gate. (R6) every index and slice expression of the validation scope is in bounds: the numeric abstract interpreter with access-path length symbols and contracts for make, append, HasPrefix/HasSuffix and the sort.Slice callback proves each, except four sites that rest on a listed shape invariant.", runC02)
+	register("C02", "Loading and validation never crash and terminate: (R1) nil safety — every dereference, reachable from Validate/Walk/LoadSchema and the rules, of a value that may be nil for a parseable document (a 'requires validation' link, a map lookup, a ForName result, a phi with nil) is dominated by a nil test of the same value or access path, directly or through the callee's requires-non-nil summary; (R2) every reachable panic sits in the default of an exhaustive switch; (R3) every cycle of the call graph of the validator, the rules and the loader either descends the finite document/type tree in every call (arguments reached from parameters through child fields only) or passes a visited-set gate (a membership test whose 'present' side skips the recursion and whose 'absent' side inserts before recursing); (R4) the gate's set is grow-only while the traversal runs (no delete, plain or deferred), which is what keeps fragment-following work linear in the number of fragments instead of exponential; (R5) every loop in that scope is a range loop, a counting loop towards a bound it does not change, a pointer cursor stepping to its own child, or a work list that loses one element per iteration and is only fed strict parts of that element or values that pass a visited-set gate. (R6) every index and slice expression of the validation scope is in bounds: the numeric abstract interpreter with access-path length symbols and contracts for make, append, HasPrefix/HasSuffix and the sort.Slice callback proves each, except four sites that rest on a listed shape invariant. (R4 also) an insertion whose gate looks at the stored value stores a constant or its argument, never a value computed from the previous entry.", runC02)
 }
 
 func runC02(c *Ctx) {
@@ -784,9 +784,12 @@ func c02Recursion(c *Ctx, r3, r4 *RuleResult, scope map[*ssa.Function]bool) {
 		var del ssa.Instruction
 		var kept []string
 		rec := gateRecord{site: eg.site, gates: eg.gates, scc: eg.scc}
+		var open ssa.Instruction
 		for _, g := range eg.gates {
 			if d := hasDelete(g); d != nil {
 				del = d
+			} else if o := gateStaysOpen(g); o != nil {
+				open = o
 			} else {
 				kept = append(kept, setName(g.setKey))
 				rec.persistent = append(rec.persistent, g)
@@ -796,11 +799,131 @@ func c02Recursion(c *Ctx, r3, r4 *RuleResult, scope map[*ssa.Function]bool) {
 		site := p.FuncName(eg.site.Parent()) + " at " + p.Pos(eg.site.Pos())
 		if len(kept) > 0 {
 			r4.OK("recursive call in "+site, "visited set "+strings.Join(dedupe(kept), ", ")+" is never deleted from during the traversal")
+		} else if del == nil && open != nil {
+			g := eg.gates[0]
+			r4.Fail(open.Pos(), p.FuncName(open.Parent()), "the insertion into "+setName(g.setKey)+" stores a computed value", "the membership test that guards this recursion looks at the value stored under the key, and the insertion stores a value computed from the previous entry instead of a constant or its own argument: after the insertion the test can still answer 'not visited', so the same pair is expanded again on every path that reaches it — exponential work or unbounded recursion")
 		} else {
 			g := eg.gates[0]
 			r4.Fail(del.Pos(), p.FuncName(eg.site.Parent()), "delete on the visited set "+setName(g.setKey), "entries are removed from the only visited set that guards this recursion while the traversal is still running (on unwind): the set then records just the current path, so a fragment reachable along many paths is expanded once per path — exponential work for a kilobyte-sized document")
 		}
 	}
+}
+
+// gateStaysOpen: when the membership test of a gate looks at the value stored under the key (not only at presence), the
+// insertion must store a constant or a value handed in by the caller unchanged; a value computed from the previous
+// entry (old || new) can leave the test answering "not visited" after the insertion. Returns the offending insertion.
+func gateStaysOpen(g gate) ssa.Instruction {
+	valueUsed := func(lk *ssa.Lookup) bool {
+		if !lk.CommaOk {
+			return len(*lk.Referrers()) > 0 && isBasicType(lk.Type())
+		}
+		for _, ref := range *lk.Referrers() {
+			if ex, ok := ref.(*ssa.Extract); ok && ex.Index == 0 && len(*ex.Referrers()) > 0 && isBasicType(ex.Type()) {
+				return true
+			}
+		}
+		return false
+	}
+	used := false
+	switch t := g.test.(type) {
+	case *ssa.Lookup:
+		used = valueUsed(t)
+	case ssa.CallInstruction:
+		if w := t.Common().StaticCallee(); w != nil {
+			allInstrs(w, func(in ssa.Instruction) {
+				if lk, ok := in.(*ssa.Lookup); ok && valueUsed(lk) {
+					used = true
+				}
+			})
+		}
+	}
+	if !used {
+		return nil
+	}
+	var bad ssa.Instruction
+	checkUpdate := func(mu *ssa.MapUpdate) {
+		if !isBasicType(mu.Value.Type()) {
+			return
+		}
+		switch v := stripChange(mu.Value).(type) {
+		case *ssa.Const, *ssa.Parameter, *ssa.FreeVar:
+		case *ssa.UnOp:
+			// a parameter of the enclosing function captured by reference: *fv where the captured cell is stored once, from a parameter
+			if fv, ok := v.X.(*ssa.FreeVar); ok && v.Op == token.MUL && capturedParameter(fv) {
+				return
+			}
+			bad = mu
+		default:
+			bad = mu
+		}
+	}
+	switch ins := g.insert.(type) {
+	case *ssa.MapUpdate:
+		checkUpdate(ins)
+	case ssa.CallInstruction:
+		var visit func(fn *ssa.Function, depth int)
+		visit = func(fn *ssa.Function, depth int) {
+			for _, f := range withClosures(fn) {
+				allInstrs(f, func(in ssa.Instruction) {
+					switch x := in.(type) {
+					case *ssa.MapUpdate:
+						checkUpdate(x)
+					case ssa.CallInstruction:
+						if h := x.Common().StaticCallee(); h != nil && depth < 2 && h.Signature.Recv() != nil && fn.Signature.Recv() != nil && types.Identical(h.Signature.Recv().Type(), fn.Signature.Recv().Type()) && len(h.Blocks) <= 6 {
+							visit(h, depth+1)
+						}
+					}
+				})
+			}
+		}
+		if w := ins.Common().StaticCallee(); w != nil {
+			visit(w, 0)
+		}
+	}
+	return bad
+}
+
+// capturedParameter: the free variable is bound, at every closure creation, to a cell that is stored exactly once, with a
+// parameter of the enclosing function.
+func capturedParameter(fv *ssa.FreeVar) bool {
+	fn := fv.Parent()
+	par := fn.Parent()
+	if par == nil {
+		return false
+	}
+	idx := -1
+	for i, f := range fn.FreeVars {
+		if f == fv {
+			idx = i
+		}
+	}
+	ok, n := true, 0
+	allInstrs(par, func(in ssa.Instruction) {
+		mc, isMC := in.(*ssa.MakeClosure)
+		if !isMC || mc.Fn != ssa.Value(fn) || idx < 0 || idx >= len(mc.Bindings) {
+			return
+		}
+		n++
+		a, isA := mc.Bindings[idx].(*ssa.Alloc)
+		if !isA {
+			ok = false
+			return
+		}
+		st := storesTo(a)
+		if len(st) != 1 {
+			ok = false
+			return
+		}
+		if _, isP := st[0].(*ssa.Parameter); !isP {
+			ok = false
+		}
+	})
+	return ok && n > 0
+}
+
+func isBasicType(t types.Type) bool {
+	_, ok := t.Underlying().(*types.Basic)
+	return ok
 }
 
 func setName(k string) string {
